@@ -16,7 +16,7 @@ AuthModes  == {"digest", "none", "basic", "reject", "digest_unknown"}
 \* fault kinds at redaction of file k: payload is not gzip, payload holds an over-long line, gzip stream cut (valid download of a
 \* damaged archive), <out>.<k> cannot be created
 ReqFaults  == {"status", "reset", "cut"}
-FileFaults == {"notgzip", "longline", "gzcut", "outdir"}
+FileFaults == {"notgzip", "longline", "gzcut", "outdir", "outfull"}     \* outfull: <out>.<k> can be created but not written
 NoFault    == [at |-> 0, kind |-> "none"]
 
 VARIABLES
@@ -118,7 +118,7 @@ CreateOut ==
 \* countLines + ProcessMongoLogFile
 RedactFile ==
   /\ pc = "redact"
-  /\ IF fault.at = cur /\ fault.kind \in {"notgzip", "longline", "gzcut"}
+  /\ IF fault.at = cur /\ fault.kind \in {"notgzip", "longline", "gzcut", "outfull"}
      THEN pc' = "cleanupFail" /\ UNCHANGED <<outs, cur>>
      ELSE /\ outs' = outs \cup {cur}
           /\ IF cur < Len(reg) THEN pc' = "createOut" /\ cur' = cur + 1 ELSE pc' = "cleanupOk" /\ UNCHANGED cur
